@@ -183,12 +183,9 @@ class Replayer:
         else:
             if err is None:
                 return False, "spec fails with %s, code renders %r" % (rec["exc"]["c"], text)
-            want = C.EXC_CLASSES.get(rec["exc"]["c"])
-            if want is None:
-                if type(err).__name__ != rec["exc"]["c"] and rec["exc"]["c"] not in [k.__name__ for k in type(err).__mro__]:
-                    return False, "exception class: spec %s, code %s" % (rec["exc"]["c"], type(err).__name__)
-            elif not isinstance(err, want):
-                return False, "exception class: spec %s, code %s: %s" % (rec["exc"]["c"], type(err).__name__, str(err).splitlines()[:1])
+            bad = self.check_failure(rec, err)
+            if bad:
+                return False, bad
         # ---- call log
         want = [ev["k"] for ev in rec["log"] if ev["ev"] == "call"]
         got = list(r.calls)
@@ -213,6 +210,52 @@ class Replayer:
         if wh != r.handled:
             return False, "on_error_handler calls: spec %s, code %s" % (wh, r.handled)
         return True, None
+
+
+def _check_failure(self, rec, err):
+    """C12: type preserved, RenderError mixed in for Exceptions only, args
+    preserved, message names the failing expression and its position"""
+    import re
+    from chameleon.exc import RenderError
+    cname = rec["exc"]["c"]
+    want = C.EXC_CLASSES.get(cname)
+    if want is None:
+        if cname not in [k.__name__ for k in type(err).__mro__]:
+            return "exception class: spec %s, code %s" % (cname, type(err).__name__)
+        return None
+    if not isinstance(err, want):
+        return "exception class: spec %s, code %s: %s" % (cname, type(err).__name__, str(err).splitlines()[:1])
+    if not issubclass(want, Exception):
+        if isinstance(err, Exception):
+            return "%s was turned into an Exception subclass (%s)" % (cname, [k.__name__ for k in type(err).__mro__])
+        return None
+    if want is RecursionError:
+        if isinstance(err, RenderError):
+            return "RecursionError was wrapped"
+        return None
+    if not isinstance(err, RenderError):
+        return "%s raised by render() is not a RenderError" % cname
+    orig = C.make_exc(cname)
+    if tuple(err.args) != tuple(orig.args):
+        return "exception args: original %r, raised %r" % (orig.args, err.args)
+    site = rec["exc"].get("site")
+    if site and site.get("i"):
+        info = self.c.sites.get((site["i"], site["s"], site["j"]))
+        if info is not None:
+            msg = str(err)
+            recs = re.findall(r' - Expression: "(.*?)"\n - Filename:   (.*?)\n - Location:   \(line (\d+): col (\d+)\)', msg, re.S)
+            if not recs:
+                return "message carries no expression/location record: %r" % msg[:200]
+            ex, fn, ln, col = recs[0]
+            line, column = self.c.linecol(info["offset"])
+            if ex not in (info["text"], info.get("encoded")):
+                return "message names expression %r, failing expression is %r" % (ex, info["text"])
+            if (int(ln), int(col)) != (line, column):
+                return "message locates %r at (%s, %s), it stands at (%d, %d)" % (ex, ln, col, line, column)
+    return None
+
+
+Replayer.check_failure = _check_failure
 
 
 def _strip(v):
